@@ -193,11 +193,14 @@ def prop_beliefmdp(case, ctx):
             for s, q in zip(nb.states, nb.probs):
                 mean[s] += p * q
             # matches some reference successor with the right probability
-            match = [k for k in want if all(abs(float(x) - y) <= 1e-9 for x, y in zip(k, nb.probs))]
+            # (entrywise *relative* closeness: with extreme beliefs two different posteriors can agree to 1e-9 in absolute
+            # terms and differ by a factor of two in their tiny entries)
+            near = lambda x, y: abs(x - y) <= 1e-9 * max(abs(x), abs(y)) + 1e-300
+            match = [k for k in want if all(near(float(x), y) for x, y in zip(k, nb.probs))]
             ctx.check(len(match) >= 1, "C07.beliefmdp.successor_is_a_bayes_posterior", lambda: f"{nb}")
             if match:
                 tp = sum(float(want[k]) for k in match)
-                same = [p2 for nb2, p2 in nsd.items() if all(abs(x - y) <= 1e-9 for x, y in zip(nb2.probs, nb.probs))]
+                same = [p2 for nb2, p2 in nsd.items() if all(near(x, y) for x, y in zip(nb2.probs, nb.probs))]
                 ctx.check(abs(sum(same) - tp) <= 1e-9, "C07.beliefmdp.successor_probability",
                           lambda: f"{nb}: {sum(same)} expected {tp}")
         pred = ref.predict(rb, a)
